@@ -12,7 +12,7 @@ from __future__ import annotations
 
 import ast
 
-from ..astutil import dotted, src, walk_local, local_assignments, calls, terminal
+from ..astutil import resolve_class, dotted, src, walk_local, local_assignments, calls, terminal
 from ..dispatch import dispatcher, operand_slots, dead_arms
 from ..report import AnalysisError
 from .common import problem_model
@@ -44,6 +44,185 @@ def _continue_facts(body, tr):
         if kind in ("continue", "return"):
             res = set(f) if res is None else set(res) & set(f)
     return set(res) if res is not None else set()
+
+
+def _shortcut_by_scenario(prog, rep, sc, ds):
+    """R16.3: what the single-vector shortcut does for a node of kind K whose operands are of given kinds, decided
+    by walking the loop body under that scenario (not by the text of an arm, so shared tails / merged arms are fine).
+
+    scenario = (K, kind of every operand slot, operands-are-the-same-object?, found_source already set?, differs?)
+    expected: leaf kinds without operands are skipped; container kinds push every child; vector kinds record the
+    operand iff it is a VectorVariable (for two operands: iff both are and they are one object) and otherwise give
+    up; a recorded candidate is merged into found_source BY IDENTITY; any other kind gives up."""
+    from ..scenario import Explorer, TooManyPaths, is_none
+
+    subj = ds.subject
+    loop = None
+    for n in walk_local(sc.node):
+        if isinstance(n, (ast.While, ast.For)) and any(isinstance(st, ast.Assign) and isinstance(st.targets[0], ast.Name) and st.targets[0].id == subj for st in n.body):
+            loop = n
+    if loop is None:
+        rep.undecided(f"{sc.name}: traversal loop binding `{subj}` not found")
+        return
+    handled = sorted({k for a in ds.arms for k in a.kinds})
+    aliases = prog.func_aliases(sc)
+
+    def run(kind, slot_kinds, same):
+        """paths: list of dict(events..., terminal)"""
+        def cls_of(node):
+            return resolve_class(node, aliases) or src(node)
+
+        def atom_truth(t, state):
+            if isinstance(t, ast.Name) and t.id in state["bools"]:
+                return state["bools"][t.id]
+            if isinstance(t, ast.Call) and dotted(t.func) == "isinstance" and len(t.args) == 2:
+                what = src(t.args[0])
+                kinds = [cls_of(e) for e in (t.args[1].elts if isinstance(t.args[1], ast.Tuple) else [t.args[1]])]
+                if what == subj:
+                    return any(k2 in prog.classes and kind in prog.classes and prog.is_subclass(kind, k2) for k2 in kinds)
+                for sl, sk in slot_kinds.items():
+                    if what == f"{subj}.{sl}" or state["alias"].get(what) == sl:
+                        return any(sk == k2 or (sk in prog.classes and k2 in prog.classes and prog.is_subclass(sk, k2)) for k2 in kinds)
+                return None
+            if isinstance(t, ast.Compare) and len(t.ops) == 1:
+                l, r = src(t.left), src(t.comparators[0])
+                op = t.ops[0]
+                sl = {f"{subj}.{x}" for x in slot_kinds}
+                if l in sl and r in sl and l != r:
+                    if isinstance(op, (ast.Is, ast.Eq)):
+                        return same
+                    if isinstance(op, (ast.IsNot, ast.NotEq)):
+                        return not same
+                if "found_source" in (l, r):
+                    other = r if l == "found_source" else l
+                    if other == "None":
+                        state["consulted"] = True
+                        v = state["fs_none"]
+                        return v if isinstance(op, (ast.Is, ast.Eq)) else (not v)
+                    if state["alias"].get(other) is not None or other in sl:
+                        state["cmp_ops"].append(type(op).__name__)
+                        state["compared"] = True
+                        d = state["differs"]
+                        return d if isinstance(op, (ast.IsNot, ast.NotEq)) else (not d)
+                if isinstance(op, (ast.In, ast.NotIn)) and ("visited" in r or "seen" in r):
+                    return isinstance(op, ast.NotIn)      # the node is met for the first time
+            if isinstance(t, ast.Name) and t.id == "found_source":
+                state["consulted"] = True
+                return not state["fs_none"]
+            return None
+
+        def on_stmt(st, state):
+            if isinstance(st, (ast.Assign, ast.AnnAssign)) and getattr(st, "value", None) is not None:
+                tg = st.targets[0] if isinstance(st, ast.Assign) else st.target
+                if isinstance(tg, ast.Name):
+                    v = st.value
+                    vs = src(v)
+                    hit = [sl for sl in slot_kinds if vs == f"{subj}.{sl}"]
+                    if tg.id == "found_source":
+                        srcslot = hit[0] if hit else state["alias"].get(vs)
+                        if srcslot is not None:
+                            state["events"].append(("set", srcslot))
+                        elif not is_none(v):
+                            state["events"].append(("set?", vs))
+                    elif hit:
+                        state["alias"][tg.id] = hit[0]
+                        state["events"].append(("candidate", hit[0]))
+                    elif isinstance(v, (ast.Call, ast.Compare, ast.BoolOp, ast.UnaryOp)):
+                        # local boolean such as left_is_vec = isinstance(current.left, VectorVariable)
+                        vals = [x for x, _s in ex._eval(v, ex._fork(state))] if not isinstance(v, ast.Call) or dotted(v.func) == "isinstance" else [None]
+                        state["bools"][tg.id] = vals[0] if len(vals) == 1 else None
+            for c in ast.walk(st):
+                if isinstance(c, ast.Call) and isinstance(c.func, ast.Attribute) and c.func.attr in ("append", "extend") and c.args:
+                    for sl in slot_kinds:
+                        if src(c.args[0]).startswith(f"{subj}.{sl}"):
+                            state["events"].append(("push", sl))
+
+        out = []
+        for fs_none in (True, False):
+            for differs in ((False,) if fs_none else (True, False)):
+                ex = Explorer(atom_truth, on_stmt)
+                st0 = {"events": [], "alias": {}, "bools": {}, "fs_none": fs_none, "differs": differs, "cmp_ops": [], "consulted": False, "compared": False}
+                body = [st for st in loop.body if not (isinstance(st, ast.Assign) and isinstance(st.targets[0], ast.Name) and st.targets[0].id == subj)]
+                for state, term in ex.explore(body, st0):
+                    out.append((fs_none, differs, state, term))
+        return out
+
+    def gives_up(term):
+        return isinstance(term, tuple) and term[0] == "return" and is_none(term[1])
+
+    def goes_on(term):
+        return term in ("continue", "fall")
+
+    n_sc = 0
+    kinds = handled + ["Variable"]
+    for kind in kinds:
+        slots = operand_slots(prog, kind) if kind in prog.classes else {}
+        construct = f"{sc.name}[{kind}]" if kind in handled else f"{sc.name}[default]"
+        if kind not in prog.classes:
+            continue
+        choices = [[]]
+        for sl, holders in sorted(slots.items()):
+            choices = [c + [(sl, h)] for c in choices for h in holders]
+        for ch in choices:
+            sk = dict(ch)
+            vec = [sl for sl, h in sk.items() if h in ("VectorVariable", "VectorExpression")]
+            all_vv = bool(vec) and all(sk[sl] == "VectorVariable" for sl in vec)
+            for same in ((True, False) if len(vec) == 2 and all_vv else (True,)):
+                try:
+                    paths = run(kind, sk, same)
+                except TooManyPaths:
+                    rep.undecided(f"{construct}: too many paths through the shortcut loop")
+                    continue
+                n_sc += 1
+                desc = ", ".join(f".{sl} is a {h}" for sl, h in sorted(sk.items())) + (", one object" if len(vec) == 2 and all_vv and same else ", two different objects" if len(vec) == 2 and all_vv else "")
+                det = "arm" if kind in handled else "default-gives-up"
+                loc = sc.loc
+                # expectations
+                if kind not in handled:
+                    bad = [p for p in paths if not gives_up(p[3])]
+                    rep.ob("R16.3", construct, not bad, "unknown node kinds (incl. scalar Variable) make the shortcut give up" if not bad else "unknown node kinds are skipped instead of giving up: the shortcut can return a vector although other variables occur", loc=loc, detail=det)
+                    continue
+                if not slots:
+                    bad = [p for p in paths if not goes_on(p[3]) or p[2]["events"]]
+                    ok = not bad and kind in ("Constant", "Parameter")
+                    rep.ob("R16.3", construct, ok, "contributes no variables; skipped" if ok else f"leaf kind {kind} is skipped although it may carry a variable", loc=loc, detail=det)
+                    continue
+                if not vec:
+                    # container of scalar expressions: push every child, never give up, never record
+                    bad = None
+                    for fs, df, st_, term in paths:
+                        pushed = {x for e, x in st_["events"] if e == "push"}
+                        if pushed != set(slots) or not goes_on(term):
+                            bad = pushed
+                    rep.ob("R16.3", construct, bad is None, f"pushes all children {sorted(slots)}" if bad is None else f"pushes only {sorted(bad)} of {sorted(slots)}: a second vector or scalar under the other child goes unnoticed and the shortcut returns too few variables", loc=loc, detail=det)
+                    continue
+                accept = all_vv and same
+                if not accept:
+                    # container of element expressions may instead be opened (pushes its elements)
+                    bad = [p for p in paths if not gives_up(p[3]) and not ({x for e, x in p[2]["events"] if e == "push"} == set(slots) and goes_on(p[3]))]
+                    rep.ob("R16.3", construct, not bad, f"{desc}: the shortcut gives up (or opens the container)" if not bad else f"{desc}: the node is accepted" + (" without requiring both operands to be the same VectorVariable object" if len(vec) == 2 else " although the operand is a VectorExpression whose variables are not looked at"), loc=loc, detail=det + ":" + desc[:40])
+                    continue
+                why = None
+                for fs, df, st_, term in paths:
+                    ev = st_["events"]
+                    rec = [x for e, x in ev if e in ("candidate", "set")]
+                    pushed = {x for e, x in ev if e == "push"}
+                    if pushed == set(slots) and goes_on(term):
+                        continue        # opened instead of recorded: sound
+                    if not rec:
+                        why = f"{desc}: the operand is not recorded as the source"
+                    elif fs and ("set", rec[0]) not in ev and not any(e == "set" for e, _x in ev):
+                        why = f"{desc}: first source seen, but found_source is not set to it"
+                    elif not fs and not st_["compared"]:
+                        why = f"{desc}: a source was already found, but the new candidate is not compared with it"
+                    elif not fs and df and not gives_up(term):
+                        why = f"{desc}: the candidate differs from the source found earlier, yet the shortcut does not give up"
+                    elif not fs and not df and not goes_on(term):
+                        why = f"{desc}: the candidate IS the source found earlier, yet the shortcut gives up"
+                    elif any(op in ("Eq", "NotEq") for op in st_["cmp_ops"]):
+                        why = "candidate sources are not compared by identity (`is not`): == on vectors builds a constraint object, which is truthy"
+                rep.ob("R16.3", construct, why is None, f"{desc}: recorded and merged into found_source by identity" if why is None else why, loc=loc, detail=det + ":" + desc[:40])
+    rep.saw("shortcut scenarios explored", n_sc)
 
 
 def check(prog, rep):
@@ -106,71 +285,54 @@ def check(prog, rep):
         raise AnalysisError("single-vector shortcut function not found")
     sc = sc[0]
     ds = dispatcher(prog, sc)
-    for a in ds.arms:
-        for k in a.kinds:
-            slots = operand_slots(prog, k) if k in prog.classes else {}
-            body = a.body
-            bsrc = src(body)
-            construct = f"{sc.name}[{k}]"
-            if not slots:
-                ok = k in ("Constant", "Parameter") and terminal(body) == "continue"
-                rep.ob("R16.3", construct, ok, "contributes no variables; skipped" if ok else f"leaf kind {k} is skipped although it may carry a variable", loc=f"{sc.module.rel}:{a.lineno}", detail="arm")
-                continue
-            pushes_any = set()
-            for n in ast.walk(ast.Module(body=body, type_ignores=[])):
-                if isinstance(n, ast.Call) and isinstance(n.func, ast.Attribute) and n.func.attr in ("append", "extend") and src(n.func.value) == "stack" and n.args:
-                    for s in slots:
-                        if src(n.args[0]).startswith(f"{ds.subject}.{s}"):
-                            pushes_any.add(s)
-            pushes = _must_pushed(body, ds.subject, slots) if pushes_any else set()
-            if pushes_any:
-                ok = pushes == set(slots)
-                rep.ob("R16.3", construct, ok, f"pushes all children {sorted(pushes)}" if ok else f"pushes only {sorted(pushes)} of {sorted(slots)}: a second vector or scalar under the other child goes unnoticed and the shortcut returns too few variables", loc=f"{sc.module.rel}:{a.lineno}", detail="arm")
-                continue
-            # records candidates: every operand slot must be recorded (after an isinstance VectorVariable guard when the
-            # slot admits expression vectors) and every other path must return None
-            recorded = set()
-            for n in ast.walk(ast.Module(body=body, type_ignores=[])):
-                if isinstance(n, ast.Assign) and isinstance(n.targets[0], ast.Name) and n.targets[0].id == "candidate":
-                    for s in slots:
-                        if src(n.value) == f"{ds.subject}.{s}":
-                            recorded.add(s)
-            guards_ok = True
-            for s, holders in slots.items():
-                if "VectorExpression" in holders:
-                    if f"isinstance({ds.subject}.{s}, VectorVariable)" not in bsrc:
-                        guards_ok = False
-            same_check = True
-            if len(slots) == 2:
-                a_, b_ = sorted(slots)
-                same_check = f"{ds.subject}.{a_} is {ds.subject}.{b_}" in bsrc or f"{ds.subject}.{b_} is {ds.subject}.{a_}" in bsrc
-                ok = len(recorded) >= 1 and guards_ok and same_check
-                why = "both operands are required to be the same VectorVariable object, which is recorded" if ok else "a two-operand node is accepted without requiring both operands to be the same VectorVariable object"
-            else:
-                ok = recorded == set(slots) and guards_ok
-                why = f"records the VectorVariable operand .{next(iter(slots))} (other operand kinds give up)" if ok else f"does not record operand(s) {sorted(set(slots) - recorded)} or accepts a VectorExpression operand without looking inside"
-            # candidate comparison by identity
-            ident = "found_source is not candidate" in bsrc or "candidate is not found_source" in bsrc
-            rep.ob("R16.3", construct, ok and ident, why if ok and ident else (why if not ok else "candidate sources are not compared by identity (`is not`)"), loc=f"{sc.module.rel}:{a.lineno}", detail="arm")
-    dflt = ds.default
-    gives_up = any(isinstance(s, ast.Return) and (s.value is None or (isinstance(s.value, ast.Constant) and s.value.value is None)) for s in dflt)
-    rep.ob("R16.3", f"{sc.name}[default]", gives_up, "unknown node kinds (incl. scalar Variable) make the shortcut give up" if gives_up else "unknown node kinds are skipped instead of giving up: the shortcut can return a vector although other variables occur", loc=sc.loc, detail="default-gives-up")
+    _shortcut_by_scenario(prog, rep, sc, ds)
     # use site: all constraints must agree
     P = prog.cls("Problem")
     pv = P.methods.get("variables")
     if pv is None:
         raise AnalysisError("Problem.variables not found")
-    uses = [c for c in calls(pv.node) if dotted(c.func) == sc.name]
-    obj_use = any("_objective" in src(c.args[0]) for c in uses)
-    loop_use = [c for c in uses if ".expr" in src(c.args[0])]
-    ok = obj_use and bool(loop_use)
-    if loop_use:
-        lp = loop_use[0]
+    from .common import helper_closure
+    scope = helper_closure(prog, pv)
+    rep.saw("Problem.variables closure", [f.qual.split(":")[1] for f in scope])
+    uses = [(f, c) for f in scope for c in calls(f.node) if dotted(c.func) == sc.name and c.args]
+    obj_use = [(f, c) for f, c in uses if "_objective" in src(c.args[0])]
+    loop_use = [(f, c) for f, c in uses if ".expr" in src(c.args[0])]
+    if not uses:
+        rep.ob("R16.3", "Problem.variables", True, "the single-vector shortcut is not used", loc=pv.loc, detail="all-constraints-agree")
+    elif not loop_use:
+        rep.ob("R16.3", "Problem.variables", False, "the shortcut is taken without checking that every constraint depends on the same vector: it is consulted for the objective only", loc=pv.loc, detail="all-constraints-agree")
+    else:
+        f, lp = loop_use[0]
         p = getattr(lp, "_parent", None)
-        while p is not None and not isinstance(p, ast.For):
+        region = None
+        while p is not None and p is not f.node:
+            if isinstance(p, ast.For) and "constraints" in src(p.iter):
+                region, it = p, src(p.iter)
+                break
+            if isinstance(p, (ast.GeneratorExp, ast.ListComp)) and any("constraints" in src(g.iter) for g in p.generators):
+                region, it = p, [src(g.iter) for g in p.generators if "constraints" in src(g.iter)][0]
+                break
             p = getattr(p, "_parent", None)
-        ok = ok and p is not None and src(p.iter) == "self._constraints" and "is not source_vector" in src(p) and any(isinstance(x, ast.Break) for x in ast.walk(p))
-    rep.pin("Problem.variables shape rules", "R16.3", "Problem.variables", ok, "the shortcut is taken only if the objective and every constraint yield the same source object" if ok else "the shortcut is taken without checking that every constraint depends on the same vector", loc=pv.loc, detail="all-constraints-agree")
+        if region is None:
+            rep.undecided(f"Problem.variables: the shortcut is applied to a constraint at {f.module.rel}:{lp.lineno}, but not inside a loop over the constraints")
+        elif it not in ("self._constraints", "self.constraints"):
+            rep.ob("R16.3", "Problem.variables", False, f"the shortcut is taken without checking that every constraint depends on the same vector: the check ranges over `{it}`, not over all constraints", loc=f"{f.module.rel}:{region.lineno}", detail="all-constraints-agree")
+        else:
+            holders = {src(lp)} | {nm for nm, vals in local_assignments(f.node).items() if any(v is lp for v in vals)}
+            cmps = [x for x in ast.walk(region) if isinstance(x, ast.Compare) and len(x.ops) == 1 and ({src(x.left), src(x.comparators[0])} & holders) and not ({src(x.left), src(x.comparators[0])} & {"None"})]
+            if not cmps:
+                rep.undecided(f"Problem.variables: no comparison of the constraint's source with the objective's source found in the loop at {f.module.rel}:{region.lineno}")
+            else:
+                by_id = all(isinstance(x.ops[0], (ast.Is, ast.IsNot)) for x in cmps)
+                # a mismatch must lead away from the fast path: break / return / flag = False / all(...)
+                leaves = isinstance(region, (ast.GeneratorExp, ast.ListComp)) or any(isinstance(x, (ast.Break, ast.Return)) for x in ast.walk(region)) or any(isinstance(x, ast.Assign) and isinstance(x.value, ast.Constant) and x.value.value in (False, None) for x in ast.walk(region))
+                if isinstance(region, (ast.GeneratorExp, ast.ListComp)):
+                    par = getattr(region, "_parent", None)
+                    leaves = isinstance(par, ast.Call) and dotted(par.func) == "all"
+                ok = by_id and leaves and bool(obj_use)
+                rep.ob("R16.3", "Problem.variables", ok, "the shortcut is taken only if the objective and every constraint yield the same source object (compared by identity)" if ok else
+                       ("the constraint's source is compared with the objective's by == / != (a Constraint object, always truthy), not by identity" if not by_id else "the shortcut is taken without checking that every constraint depends on the same vector"),
+                       loc=f"{f.module.rel}:{region.lineno}", detail="all-constraints-agree")
 
     # ------------------------------------------------------------------ R16.4
     pm = problem_model(prog)
@@ -181,9 +343,38 @@ def check(prog, rep):
     stores = [(fi, n) for fi, n in pm.assigned_outside.get("_variables", []) if isinstance(n, ast.Assign) and not isinstance(n.value, ast.Constant)]
     if not stores:
         raise AnalysisError("no store into Problem._variables found")
+    def sorted_value(f, v, depth=0):
+        """True / False / None(undecided): is the value a sorted(..., key=natural key) list on every path?"""
+        if isinstance(v, ast.Call) and dotted(v.func) == "sorted":
+            return any(k.arg == "key" and src(k.value) in (natname, "lambda v: v._sort_key") for k in v.keywords)
+        if depth > 3:
+            return None
+        if isinstance(v, ast.Name):
+            vals = [x for x in local_assignments(f.node).get(v.id, []) if isinstance(x, ast.AST)]
+            if not vals:
+                return None
+            rs = [sorted_value(f, x, depth + 1) for x in vals]
+            return False if any(r is False for r in rs) else None if any(r is None for r in rs) else True
+        if isinstance(v, ast.Call):
+            tgt = None
+            if isinstance(v.func, ast.Attribute) and isinstance(v.func.value, ast.Name) and v.func.value.id == "self" and f.cls is not None:
+                tgt = prog.lookup_method(f.cls.name, v.func.attr)
+            elif isinstance(v.func, ast.Name):
+                tgt = prog.functions.get(f"{f.module.name}:{v.func.id}")
+            if tgt is not None:
+                rets = [r for r in walk_local(tgt.node) if isinstance(r, ast.Return) and r.value is not None]
+                if not rets:
+                    return None
+                rs = [sorted_value(tgt, r.value, depth + 1) for r in rets]
+                return False if any(r is False for r in rs) else None if any(r is None for r in rs) else True
+        return False
+
     for fi, n in stores:
         v = n.value
-        ok = isinstance(v, ast.Call) and dotted(v.func) == "sorted" and any(k.arg == "key" and src(k.value) in (natname, "lambda v: v._sort_key") for k in v.keywords)
+        ok = sorted_value(fi, v)
+        if ok is None:
+            rep.undecided(f"{fi.qual.split(':')[1]}: cannot tell whether `{src(v)[:50]}` stored into _variables is sorted by the natural key")
+            continue
         rep.ob("R16.4", f"{fi.qual.split(':')[1]}", ok,
                f"stores sorted(..., key={natname})" if ok else f"stores `{src(v)[:60]}` without sorting by the natural key: the order is that of the source object (e.g. a reversed or strided slice), not the documented natural order",
                loc=f"{fi.module.rel}:{n.lineno}", detail=f"store:{'sorted' if ok else src(v)[:40]}")
@@ -203,10 +394,13 @@ def check(prog, rep):
     gb = P.methods.get("get_bounds")
     ok = gb is not None and any(isinstance(n, ast.ListComp) and src(n.generators[0].iter) == "self.variables" and src(n.elt) == f"({src(n.generators[0].target)}.lb, {src(n.generators[0].target)}.ub)" for n in walk_local(gb.node))
     rep.pin("Problem.variables shape rules", "R16.5", "Problem.get_bounds", ok, "[(v.lb, v.ub) for v in self.variables]" if ok else "get_bounds does not pair (lb, ub) of each variable in self.variables order", loc=gb.loc if gb else P.loc, detail="bounds")
-    general = [n for n in walk_local(pv.node) if isinstance(n, ast.AnnAssign) and "set" in src(n.annotation)] + [n for n in walk_local(pv.node) if isinstance(n, ast.Assign) and isinstance(n.value, ast.Call) and dotted(n.value.func) == "set"]
-    rep.pin("Problem.variables shape rules", "R16.6", "Problem.variables", bool(general), "variables are collected through a set (one entry per name)" if general else "variables are not de-duplicated through a set", loc=pv.loc, detail="set")
-    covers_obj = any(dotted(c.func) == "get_all_variables" and "_objective" in src(c.args[0]) for c in calls(pv.node))
-    covers_con = any(isinstance(n, ast.For) and src(n.iter) == "self._constraints" and ".update(" in src(n) for n in walk_local(pv.node))
+    general = [n for f in scope for n in walk_local(f.node) if (isinstance(n, ast.AnnAssign) and "set" in src(n.annotation)) or (isinstance(n, ast.Assign) and isinstance(n.value, (ast.Call, ast.SetComp, ast.Set)) and (dotted(getattr(n.value, "func", None)) == "set" or not isinstance(n.value, ast.Call)))]
+    if general:
+        rep.ob("R16.6", "Problem.variables", True, "variables are collected through a set (one entry per name)", loc=pv.loc, detail="set")
+    else:
+        rep.pin("Problem.variables shape rules", "R16.6", "Problem.variables", False, "variables are not de-duplicated through a set", loc=pv.loc, detail="set")
+    covers_obj = any(dotted(c.func) == "get_all_variables" and c.args and "_objective" in src(c.args[0]) for f in scope for c in calls(f.node))
+    covers_con = any(isinstance(n, (ast.For, ast.GeneratorExp, ast.ListComp, ast.SetComp)) and ("_constraints" in src(getattr(n, "iter", None) or n.generators[0].iter)) and "get_all_variables(" in src(n) for f in scope for n in walk_local(f.node))
     rep.pin("Problem.variables shape rules", "R16.6", "Problem.variables", covers_obj and covers_con, "the general path unions the objective and every constraint" if covers_obj and covers_con else "the general path does not union the variables of the objective and of every constraint", loc=pv.loc, detail="union")
     for fi_, d_ in ((walker, d), (sc, ds)):
         da = dead_arms(prog, d_)
